@@ -306,3 +306,42 @@ func ZZ_C05_validNamesNewReplicaSet() {
 	nondet.Observe("current", cur.Name)
 	nondet.Reach("C05.valid.stale-canary-named", named == "foo-prev" && ds.Status.Canary != nil && ds.Status.Canary.ReplicaSet == "foo-prev")
 }
+
+// ZZ_C05_manualNeverByTime: "in manual validation mode elapsed time alone never promotes" — for
+// every spec the controller accepts (defaulted, then validated by the real functions): manual mode
+// with or without a duration / noRestartsDuration in the manifest, auto-fail and auto-pause switched
+// on or off, the new replica set arbitrarily old.  Whatever validation lets through, the new
+// replica set is promoted only by the canary-valid annotation.
+func ZZ_C05_manualNeverByTime() {
+	ds := &datadoghqv1alpha1.ExtendedDaemonSet{ObjectMeta: metav1.ObjectMeta{Name: "foo", Namespace: "ns", Annotations: map[string]string{}}}
+	c := &datadoghqv1alpha1.ExtendedDaemonSetSpecStrategyCanary{ValidationMode: datadoghqv1alpha1.ExtendedDaemonSetSpecStrategyCanaryValidationModeManual}
+	if nondet.Bool("duration.set") {
+		c.Duration = &metav1.Duration{Duration: time.Minute}
+	}
+	if nondet.Bool("noRestartsDuration.set") {
+		c.NoRestartsDuration = &metav1.Duration{Duration: time.Minute}
+	}
+	if nondet.Bool("autoFail.set") {
+		on := nondet.Bool("autoFail.enabled")
+		c.AutoFail = &datadoghqv1alpha1.ExtendedDaemonSetSpecStrategyCanaryAutoFail{Enabled: &on}
+	}
+	if nondet.Bool("autoPause.set") {
+		on := nondet.Bool("autoPause.enabled")
+		c.AutoPause = &datadoghqv1alpha1.ExtendedDaemonSetSpecStrategyCanaryAutoPause{Enabled: &on}
+	}
+	ds.Spec.Strategy.Canary = c
+	datadoghqv1alpha1.DefaultExtendedDaemonSetSpec(&ds.Spec, datadoghqv1alpha1.ExtendedDaemonSetSpecStrategyCanaryValidationMode(nondet.String("controllerDefaultMode", "auto", "manual")))
+	// the controller refuses to go on with a spec that does not validate
+	nondet.Assume(datadoghqv1alpha1.ValidateExtendedDaemonSetSpec(&ds.Spec) == nil)
+	now := nondet.Base()
+	active := &datadoghqv1alpha1.ExtendedDaemonSetReplicaSet{ObjectMeta: metav1.ObjectMeta{Name: "foo-a", Namespace: "ns", CreationTimestamp: metav1.NewTime(now.Add(-48 * time.Hour))}}
+	upToDate := &datadoghqv1alpha1.ExtendedDaemonSetReplicaSet{ObjectMeta: metav1.ObjectMeta{Name: "foo-b", Namespace: "ns", CreationTimestamp: metav1.NewTime(now.Add(-24 * time.Hour))}}
+	valid := nondet.Bool("annValid")
+	if valid {
+		ds.Annotations[datadoghqv1alpha1.ExtendedDaemonSetCanaryValidAnnotationKey] = "foo-b"
+	}
+	cur, _ := selectCurrentReplicaSet(ds, active, upToDate, now)
+	nondet.Assert("C05.manual.only-by-validation", (cur == upToDate) == valid)
+	nondet.Observe("current", cur.Name)
+	nondet.Reach("C05.manual.waiting", !valid && cur == active)
+}
